@@ -2,8 +2,138 @@ import Hertz.Driver.Core
 import Hertz.Model.Path
 import Hertz.Spec.Path
 import Hertz.Model.Uri
+import Hertz.Model.FsPath
 namespace Hertz.Driver.C07
 open Hertz Hertz.Driver
+
+def rewriter? (kind n : String) : Option FsPath.Rewriter := do
+  let n ← n.toNat?
+  match kind with
+  | "0" => some .none
+  | "s" => some (.stripper n)
+  | "v" => some (.vhost n)
+  | _ => none
+
+def cfg? (idx : String) : Option FsPath.FsCfg :=
+  let ix := [FsPath.bs "index.html"]
+  match idx with
+  | "i" => some { root := FsPath.testRoot, indexNames := ix, genIndex := false }
+  | "g" => some { root := FsPath.testRoot, indexNames := [], genIndex := true }
+  | "b" => some { root := FsPath.testRoot, indexNames := ix, genIndex := true }
+  | "n" => some { root := FsPath.testRoot, indexNames := [], genIndex := false }
+  | _ => none
+
+def joinSlash : List Bytes → Bytes
+  | [] => []
+  | [s] => s
+  | s :: r => s ++ 47 :: joinSlash r
+
+def listPrefix : Bytes := FsPath.bs "LIST:"
+
+/-- tokens `status id` of a served result: id = path of the file from the base directory, `LIST:<dir>` for a
+generated index, empty for an error status -/
+def servedToks : FsPath.Served → List String
+  | .file f => ["200", encHex (joinSlash f)]
+  | .listing d => ["200", encHex (listPrefix ++ joinSlash d)]
+  | .status c => [toString c, "-"]
+
+/-- the names from the base directory in an id token of the implementation -/
+def idLoc (id : Bytes) : List Bytes :=
+  FsPath.splitSlash (if listPrefix.isPrefixOf id then id.drop listPrefix.length else id)
+
+def hostClass (h : Bytes) : String :=
+  (if h.isEmpty then "e" else "") ++ (if h.contains 47 then "s" else "") ++ (if h.contains 37 then "p" else "")
+    ++ (if h.contains 46 then "d" else "") ++ (if h.contains 64 then "a" else "")
+
+def handleFs : Handler
+  | ["fstree"], _ =>
+    -- the tree on disk is the tree of the model
+    pure { out := (toString FsPath.testDirs.length :: FsPath.testDirs.map (fun d => encHex (FsPath.bs d))) ++
+                  (toString FsPath.testFiles.length :: FsPath.testFiles.map (fun d => encHex (FsPath.bs d))),
+           tag := "fstree" }
+  | ["fsrw", kind, n, host, target], impl => do
+    -- a stock FS.PathRewrite on the request (Host header, request target): the path handed to the file
+    -- handler and ctx.Path() afterwards
+    let rw ← rewriter? kind n
+    let host ← hx host
+    let target ← hx target
+    let u := Uri.parse host target
+    let m := FsPath.rewrite rw u
+    let out := match m with
+      | some (p, u') => [encHex p, encHex u'.pathOrSlash]
+      | none => ["PANIC"]
+    let spec := match impl with
+      | [p, cp] => (do
+          let p ← hx p
+          let cp ← hx cp
+          pure ((if kind == "s" then Spec.servable p else Spec.contained p) && Spec.contained cp)).getD false
+      | _ => false
+    let dec : Option FsPath.Decision := (FsPath.decision rw u).map (fun x => x.1)
+    pure { out := out, spec := spec,
+           specNote := "the rewritten path is contained (leading /, no .., no inner empty/.; a slash stripper may return the empty path) and so is ctx.Path() afterwards",
+           tag := "fsrw:" ++ kind ++ n ++ ":" ++ hostClass u.host ++ ":" ++ sizeClass target.length ++
+                  (match dec with
+                   | some .badRequest => ":nul" | some .guard => ":guard"
+                   | some (.openPath p) => ":open" ++ boolTok p.isEmpty ++ boolTok (p.length < (m.map (·.1.length)).getD 0)
+                   | none => ":panic") }
+  | ["fsguard", idx, raw], impl => do
+    -- the file handler behind an application-supplied PathRewrite that returns the bytes `raw`: the handler's own
+    -- defences (NUL test, `/../` guard) are all that stands between the rewriter and the file system
+    let cfg ← cfg? idx
+    let raw ← hx raw
+    let m := FsPath.serve FsPath.testTree cfg (.custom raw) (Uri.parse [] [47])
+    let out := match m with
+      | some (s, _) => servedToks s
+      | none => ["PANIC"]
+    let hasDDS := Uri.containsSub Hertz.Gen.Str.strSlashDotDotSlash raw
+    let spec := match impl with
+      | [st, id] => (do
+          let id ← hx id
+          pure (if hasDDS then st != "200" && id.isEmpty
+                else if id.isEmpty then st != "200" else st == "200" && Spec.insideRoot cfg.root (idLoc id))).getD false
+      | _ => false
+    let stripped := FsPath.stripTrailingSlashes raw
+    let cls := if [47, 46, 46].isSuffixOf stripped then "fs-rewrite-trailing-dotdot"
+               else if hasDDS then ""
+               else if raw.head? != some 47 && !raw.isEmpty then "fs-rewrite-no-leading-slash" else ""
+    pure { out := out, spec := spec, cls := cls,
+           specNote := "whatever bytes a PathRewrite returns, the handler refuses them when they contain /../ and otherwise only serves from inside its root",
+           tag := "fsguard:" ++ idx ++ ":" ++ sizeClass raw.length ++ boolTok hasDDS ++ boolTok (raw.head? == some 47) ++ boolTok (raw.contains 0) ++ ":" ++
+                  (match m with
+                   | some (.file _, _) => "file" | some (.listing _, _) => "list"
+                   | some (.status c, _) => toString c | none => "panic") }
+  | ["fsopen", kind, n, idx, host, target], impl => do
+    -- the real fsHandler over the tree on disk: which file (by its path from the directory ABOVE the root) was served
+    let rw ← rewriter? kind n
+    let cfg ← cfg? idx
+    let host ← hx host
+    let target ← hx target
+    let u := Uri.parse host target
+    let m := FsPath.serve FsPath.testTree cfg rw u
+    let out := match m with
+      | some (s, _) => servedToks s
+      | none => ["PANIC"]
+    let spec := match impl with
+      | [st, id] => (do
+          let id ← hx id
+          pure (if id.isEmpty then st != "200" else st == "200" && Spec.insideRoot cfg.root (idLoc id))).getD false
+      | _ => false
+    pure { out := out, spec := spec,
+           specNote := "a file handler with root R only ever serves a file or directory listing from inside R",
+           tag := "fsopen:" ++ kind ++ n ++ idx ++ ":" ++ hostClass u.host ++ ":" ++
+                  (match m with
+                   | some (.file _, _) => "file" | some (.listing _, _) => "list"
+                   | some (.status c, _) => toString c | none => "panic") }
+  | ["uripath", target], impl => do
+    -- the path the server routes on and serves files from, for a whole request target (`URI.Parse(nil, target)`):
+    -- origin form, absolute form, scheme-relative, drive-letter look-alikes `x:/…`, …
+    let t ← hx target
+    let o ← impl.head? >>= hx
+    let m := (Uri.parse [] t).path
+    pure { out := [encHex m], spec := Spec.contained o,
+           specNote := "the path of every request target is contained (leading /, no .., no inner empty/.)",
+           tag := "uripath:" ++ sizeClass t.length ++ boolTok (t.head? == some 47) ++ boolTok (t.contains 58) ++ boolTok (m == [47]) }
+  | _, _ => none
 
 def handle : Handler
   | ["normpath", src], impl => do
@@ -31,6 +161,14 @@ def handle : Handler
     pure { out := [encHex m], spec := Spec.contained o,
            specNote := "the path of every request target is contained (leading /, no .., no inner empty/.)",
            tag := "uripath:" ++ sizeClass t.length ++ boolTok (t.head? == some 47) ++ boolTok (t.contains 58) ++ boolTok (m == [47]) }
-  | _, _ => none
+  | ["fswire", n, idx, host, target], impl =>
+    -- the same request through the real server (request line + Host header on the wire, Engine with a StaticFS route
+    -- whose FS has NewVHostPathRewriter(n)): same answer as the handler called directly, same predicate
+    -- (Engine.ServeHTTP answers 400 "missing required Host header" before any handler when the URI has no host)
+    (handleFs ["fsopen", "v", n, idx, host, target] impl).map (fun r =>
+      let noHost := ((do let h ← hx host; let t ← hx target; pure (Uri.parse h t).host.isEmpty) : Option Bool).getD false
+      if noHost then { r with out := ["400", "-"], tag := "fswire:nohost" }
+      else { r with tag := "fswire" ++ r.tag.drop 6 })
+  | a, i => handleFs a i
 
 end Hertz.Driver.C07
